@@ -145,6 +145,122 @@ func extractC15(repo string) (string, error) {
 	}
 	fmt.Fprintf(&b, "/-- nextChannelRouteGeneration -/\ndef nextRG (%s : BitVec 64) : BitVec 64 :=\n  if %s = %s then %s else %s\n\n", cur, cl, cr, e1, e2)
 
+	// 3b. bumpRuntimeRoute: translated as a function of (hadRG flag, runtimeRouteChanged(existing,candidate),
+	// candidate.RouteGeneration, existing.RouteGeneration): a list of `if COND { candidate.RouteGeneration = E }`
+	// followed by `return candidate`; nothing else may be assigned.
+	fd = findFunc(f, "bumpRuntimeRoute")
+	if fd == nil || fd.Type.Params == nil || len(fd.Type.Params.List) != 2 || len(fd.Type.Params.List[0].Names) != 2 || len(fd.Type.Params.List[1].Names) != 1 {
+		return "", fmt.Errorf("bumpRuntimeRoute: want (existing, candidate ChannelRuntimeMeta, had bool)")
+	}
+	bex, bca, bhad := fd.Type.Params.List[0].Names[0].Name, fd.Type.Params.List[0].Names[1].Name, fd.Type.Params.List[1].Names[0].Name
+	if exprText(fd.Type.Params.List[1].Type) != "bool" {
+		return "", fmt.Errorf("bumpRuntimeRoute: third parameter is not a bool")
+	}
+	var rgExpr func(e ast.Expr) (string, error)
+	rgExpr = func(e ast.Expr) (string, error) {
+		switch t := exprText(e); {
+		case t == bca+".RouteGeneration":
+			return "cRG", nil
+		case t == bex+".RouteGeneration":
+			return "eRG", nil
+		}
+		if c, ok := e.(*ast.CallExpr); ok && exprText(c.Fun) == "nextChannelRouteGeneration" && len(c.Args) == 1 {
+			a, err := rgExpr(c.Args[0])
+			if err != nil {
+				return "", err
+			}
+			return "(nextRG " + a + ")", nil
+		}
+		if p, ok := e.(*ast.ParenExpr); ok {
+			return rgExpr(p.X)
+		}
+		return "", fmt.Errorf("bumpRuntimeRoute: unsupported route-generation expression %s", exprText(e))
+	}
+	var boolExpr func(e ast.Expr) (string, error)
+	boolExpr = func(e ast.Expr) (string, error) {
+		switch x := e.(type) {
+		case *ast.ParenExpr:
+			return boolExpr(x.X)
+		case *ast.Ident:
+			if x.Name == bhad {
+				return "hadRG", nil
+			}
+		case *ast.UnaryExpr:
+			if x.Op == token.NOT {
+				a, err := boolExpr(x.X)
+				if err != nil {
+					return "", err
+				}
+				return "(!" + a + ")", nil
+			}
+		case *ast.CallExpr:
+			if exprText(x.Fun) == "runtimeRouteChanged" && len(x.Args) == 2 && exprText(x.Args[0]) == bex && exprText(x.Args[1]) == bca {
+				return "changed", nil
+			}
+		case *ast.BinaryExpr:
+			if x.Op == token.LAND || x.Op == token.LOR {
+				l, err := boolExpr(x.X)
+				if err != nil {
+					return "", err
+				}
+				r, err := boolExpr(x.Y)
+				if err != nil {
+					return "", err
+				}
+				op := " && "
+				if x.Op == token.LOR {
+					op = " || "
+				}
+				return "(" + l + op + r + ")", nil
+			}
+			ops := map[token.Token]string{token.LSS: "<", token.LEQ: "≤", token.GTR: ">", token.GEQ: "≥", token.EQL: "=", token.NEQ: "≠"}
+			if o, ok := ops[x.Op]; ok {
+				l, err := rgExpr(x.X)
+				if err != nil {
+					return "", err
+				}
+				r, err := rgExpr(x.Y)
+				if err != nil {
+					return "", err
+				}
+				return "decide (" + l + " " + o + " " + r + ")", nil
+			}
+		}
+		return "", fmt.Errorf("bumpRuntimeRoute: unsupported condition %s", exprText(e))
+	}
+	if n := len(fd.Body.List); n < 1 {
+		return "", fmt.Errorf("bumpRuntimeRoute: empty body")
+	}
+	var bumpLets []string
+	for i, st := range fd.Body.List {
+		if i == len(fd.Body.List)-1 {
+			r, ok := st.(*ast.ReturnStmt)
+			if !ok || len(r.Results) != 1 || exprText(r.Results[0]) != bca {
+				return "", fmt.Errorf("bumpRuntimeRoute: does not end in `return %s`", bca)
+			}
+			break
+		}
+		ifs, ok := st.(*ast.IfStmt)
+		if !ok || ifs.Else != nil || ifs.Init != nil || len(ifs.Body.List) != 1 {
+			return "", fmt.Errorf("bumpRuntimeRoute: statement %d is not a plain one-assignment if", i)
+		}
+		as, ok := ifs.Body.List[0].(*ast.AssignStmt)
+		if !ok || as.Tok != token.ASSIGN || len(as.Lhs) != 1 || len(as.Rhs) != 1 || exprText(as.Lhs[0]) != bca+".RouteGeneration" {
+			return "", fmt.Errorf("bumpRuntimeRoute: statement %d assigns something other than %s.RouteGeneration", i, bca)
+		}
+		c, err := boolExpr(ifs.Cond)
+		if err != nil {
+			return "", err
+		}
+		v, err := rgExpr(as.Rhs[0])
+		if err != nil {
+			return "", err
+		}
+		bumpLets = append(bumpLets, fmt.Sprintf("  let cRG := if %s then %s else cRG\n", c, v))
+	}
+	b.WriteString("/-- bumpRuntimeRoute as a function of the `candidateHadRouteGeneration` flag, the value of\n    `runtimeRouteChanged(existing, candidate)` and the two route generations; the result is the returned\n    candidate's RouteGeneration (no other field is assigned) -/\n")
+	b.WriteString("def bumpRG (hadRG changed : Bool) (cRG eRG : BitVec 64) : BitVec 64 :=\n" + strings.Join(bumpLets, "") + "  cRG\n\n")
+
 	// 4. resolveMonotonicChannelRuntimeMeta: the switch's case conditions and what each returns
 	fd = findFunc(f, "resolveMonotonicChannelRuntimeMeta")
 	if fd == nil {
